@@ -359,7 +359,10 @@ func (r *admRun) judgeController(cr *admCallRun, out *admOutcome, evs []sarama.V
 	// routing (not judged for concurrent callers: another call's controller move may fall between this call's
 	// look-up of the controller and the arrival of its request)
 	for i := range evs {
-		if concurrent {
+		// also not for a lone call at the end of a case with concurrent batches: two refreshes of the batch
+		// before may have been applied in the other order than they were served, so "the latest metadata
+		// served" is not what the client has
+		if concurrent || r.cs.Conc > 1 {
 			break
 		}
 		e := &evs[i]
